@@ -884,7 +884,7 @@ def cmwpm_case(ctx, acc, rec, spec, dspec, e, s, exh):
     # the WEIGHTS of every graph a StepGrid.mwpm call of this decode handed to gt.mwpm == Model/StepGrid.lean distance over
     # the background of that call (exact: only parameter sets whose products and sums are exact in binary64)
     from qv import c02_stepgrid as SGm
-    for call in gc:
+    for call in (gc if not ctx.quick() else gc[-2:]):   # quick tier: the graphs of the final primal and dual call
         ckw = call.get('kw') or {}
         fac, shp, alg = ckw.get('factor', 3), ckw.get('box_shape', 't'), ckw.get('distance_algorithm', 4)
         matched = list(call.get('matched') or [])
